@@ -21,7 +21,7 @@ import (
 
 const (
 	bufSize     = 1500
-	arriveWait  = 3 * time.Second
+	arriveWait  = 6 * time.Second
 	pollEvery   = 2 * time.Millisecond
 	backendIP   = "127.0.3.2"
 	backendIPSy = "127.0.3.3"
